@@ -143,12 +143,18 @@ func (w *World) rtPanic(fr *frame, pos token.Pos, msg string) {
 	panic(targetPanic{v: iface{w.runtimeErrorT, "runtime error: " + msg}, where: w.where(fr, pos)})
 }
 
+// gNonTermViolation: check json "nontermination_is_violation".
+var gNonTermViolation bool
+
 func (w *World) visitInstr(fr *frame, instr ssa.Instruction) continuation {
 	w.steps++
 	if w.steps-w.pathSteps0 > maxPathSteps && w.run != nil && w.logging {
 		// a single path that executes this many instructions does not terminate for practical purposes
 		// (e.g. a concrete endless loop in the code under test): inconclusive instead of hanging the run
 		w.pathSteps0 = w.steps
+		if gNonTermViolation {
+			w.violate("nontermination", fmt.Sprintf("path executed more than %d SSA instructions without terminating", int64(maxPathSteps)), w.where(fr, instr.Pos()), w.run.witness)
+		}
 		w.run.inconclusive = append(w.run.inconclusive, fmt.Sprintf("BOUND-HIT: path executed more than %d SSA instructions (endless loop?) at %s", int64(maxPathSteps), w.where(fr, instr.Pos())))
 		panic(pathEnd{"bound-hit"})
 	}
